@@ -153,6 +153,13 @@ def families(thorough):
         s.append(Case(t, stop='drop', mode='session'))
         s.append(Case(t, stop='drop', cache=4))
     F['drops'] = s
+    # -- checkouts that time out because the pool is exhausted by other clients
+    s = []
+    for t in (['select', 'select2'], ['begin', 'select', 'commit'], ['P', 'B', 'E', 'S', 'select'], ['select', 'P', 'B', 'E', 'S', 'P', 'B', 'E', 'S'], ['set', 'select'], ['begin', 'error', 'rollback', 'select'], ['Ps', 'Bs', 'E', 'S', 'Bs', 'E', 'S']):
+        for stop in ('X', 'eof'):
+            s.append(Case(t, stop=stop, checkout_failures=2))
+        s.append(Case(t, stop='X', checkout_failures=1, cache=4))
+    F['checkout-failures'] = s
     # -- the shutdown broadcast arriving at any point of a session
     s = []
     for t in (['select'], ['select', 'select2'], ['begin', 'select', 'commit'], ['begin', 'select', 'commit', 'select2'], ['P', 'B', 'E', 'S', 'select'], ['begin', 'P', 'B', 'E', 'S', 'commit'],
@@ -245,6 +252,7 @@ DESCR = {
     'status': 'statements after each of which the backend reports a SYMBOLIC transaction status (any status PostgreSQL can reach from the previous one)',
     'params': 'sessions of a client whose startup values of tracked parameters differ from the servers\' (incl. a value with a quote), SETs of tracked and untracked parameters outside and inside BEGIN, on one server and on two (either may serve each transaction)',
     'drops': 'sessions whose client socket is gone for good right after its last message: pgcat\'s writes of the replies fail, then its read hits EOF',
+    'checkout-failures': 'sessions in which up to two checkouts time out because other clients hold every connection (solver\'s choice which): the request gets the pool error, the session stays usable',
     'shutdown': 'sessions during which the shutdown broadcast may arrive at any select! (solver\'s choice, either polling order)',
     'timeouts': 'transactions of a client while idle_client_in_transaction_timeout is configured: at every read inside the transaction loop the deadline fires or not (solver\'s choice), afterwards the session goes on; and sessions with statement_timeout configured in which a slow statement is or is not answered in time',
     'two-clients': 'a first client (tracked-parameter SETs, named statements with caching on, an open transaction / COPY / session state at EOF) followed by a second client on the same server connections with its own parameters, statement names and requests',
@@ -276,7 +284,7 @@ def handle_obligations(chk, prog, props, fams):
     tasks = []
     for fam in fams:
         cases = F[fam]
-        n = max(1, min(12, len(cases) // (4 if fam in ('status', 'plugins', 'malformed', 'commands', 'cache', 'params', 'two-clients', 'timeouts', 'shutdown') else 40)))
+        n = max(1, min(12, len(cases) // (4 if fam in ('status', 'plugins', 'malformed', 'commands', 'cache', 'params', 'two-clients', 'timeouts', 'shutdown', 'checkout-failures') else 40)))
         for i in range(n):
             tasks.append((prog, fam, i, n, cases[i::n], set(props)))
     chk.parallel(_run_chunk, tasks)
